@@ -24,6 +24,10 @@ pub struct Case {
     /// run the replay model in a freshly spawned thread (exposes thread-local state)
     #[serde(default)]
     pub replay_in_new_thread: bool,
+    /// the clone is produced by `target.clone_from(&original)` where target is an instance with the same
+    /// parameters that was first fed these inputs (empty = plain `clone()`)
+    #[serde(default)]
+    pub clone_from_dirt: Vec<Inp>,
     pub ops: Vec<COp>,
     /// the clone is taken just before ops[clone_at]
     pub clone_at: usize,
@@ -55,7 +59,16 @@ pub fn check(c: &Case, ctx: &mut Ctx) -> Result<(), Failure> {
     let mut pre_clone_inputs = 0usize;
     for (i, op) in c.ops.iter().enumerate() {
         if i == clone_at {
-            clone = Some(orig.clone());
+            clone = Some(if c.clone_from_dirt.is_empty() {
+                orig.clone()
+            } else {
+                let mut t = fresh(&c.cfg)?;
+                for d in &c.clone_from_dirt {
+                    feed(&mut t, d);
+                }
+                t.clone_from_same(&orig);
+                t
+            });
             ins[1] = ins[0].clone();
             outs[1] = outs[0].clone();
             pre_clone_inputs = ins[0].len();
@@ -171,12 +184,13 @@ fn strategy(cap: usize, maxops: usize) -> BoxedStrategy<Case> {
             let post_len = (2 * w + 4).min(maxops)..=(6 * w + 20).min(maxops.max(2 * w + 4));
             let post = vec((prop_oneof![4 => Just(0u8), 4 => Just(1u8), 1 => Just(2u8)], inp_post()), post_len);
             let other = any_kind().prop_flat_map(|k| cfg_for(k, 24, multiplier_any()));
-            (Just(cfg), pre, post, other, any::<bool>())
+            let dirt = prop_oneof![2 => Just(vec![]), 1 => vec(inp_special(3), 1..=(2 * w + 5))];
+            (Just(cfg), pre, post, other, any::<bool>(), dirt)
         })
-        .prop_map(|(cfg, pre, post, other, th)| {
+        .prop_map(|(cfg, pre, post, other, th, clone_from_dirt)| {
             let clone_at = pre.len();
             let ops = pre.into_iter().chain(post).map(|(target, inp)| COp { target, inp }).collect();
-            Case { cfg, other: Some(other), replay_in_new_thread: th, ops, clone_at }
+            Case { cfg, other: Some(other), replay_in_new_thread: th, clone_from_dirt, ops, clone_at }
         })
         .boxed()
 }
@@ -287,7 +301,7 @@ pub fn check_threads(c: &TCase, ctx: &mut Ctx) -> Result<(), Failure> {
 }
 
 fn thread_strategy() -> BoxedStrategy<TCase> {
-    vec(any_kind().prop_flat_map(|k| cfg_for(k, 32, multiplier_any())).prop_flat_map(|cfg| (Just(cfg), vec(inp_special(4), 50..=200))), 16..=16)
+    vec(any_kind().prop_flat_map(|k| cfg_for(k, 300, multiplier_any())).prop_flat_map(|cfg| { let w = flush_len(&cfg); (Just(cfg), vec(inp_special(4), (w + 20)..=(2 * w + 200))) }), 16..=16)
         .prop_map(|work| TCase { work })
         .boxed()
 }
@@ -313,7 +327,7 @@ pub fn run(g: &mut Global) {
             let clone_at = (j % (l as u64 + 1)) as usize;
             let d = digits(j / (l as u64 + 1), 6, l);
             let ops = d.iter().map(|&x| COp { target: (x / 3) as u8, inp: letter(EALPHA[x % 3]) }).collect();
-            Case { cfg: cfg_small(kind, n), other: None, replay_in_new_thread: false, ops, clone_at }
+            Case { cfg: cfg_small(kind, n), other: None, replay_in_new_thread: false, clone_from_dirt: if i % 2 == 0 { vec![] } else { vec![letter(7.0), letter(2.0), letter(9.0)] }, ops, clone_at }
         },
         &check,
     );
